@@ -155,7 +155,12 @@ def run_property(prop, tier, seed, replay_path, t0):
                     extra = s[3] if len(s) > 3 else ()
                     n = nq if tier == 'quick' else nt
                     sseed = seed * 1000003 + k
-                    c, i, m = runner.run_suite(stage, suite, sseed, n, workdir, extra)
+                    try:
+                        c, i, m = runner.run_suite(stage, suite, sseed, n, workdir, extra)
+                    except runner.HarnessCrash as hc:
+                        problems.append(dict(what='the harness process crashed in suite %s (seed %d): a panic escaped inside the implementation' % (suite, sseed),
+                                             detail=hc.out[-3000:]))
+                        continue
                     compare(res, prop, suite, c, i, m)
                     if stage.facts_changed and stage.pinned:
                         mp = runner.run_pinned(stage, os.path.join(workdir, suite + '.cases'), os.path.join(workdir, suite + '.pinned'))
